@@ -39,6 +39,8 @@ func (c15) Cases(tier string, seed int64, kf *KnownFindings) []Case {
 	}
 	// payloads larger than any plausible internal piece size (64 KiB .. 300 KiB)
 	cs = append(cs, Case{Kind: "big", Seed: Mix(seed, 299), Count: 6, Sub: -1})
+	// maps keyed by interface{} with keys of SEVERAL Go types, and named (typed) maps, alone and inside containers
+	cs = append(cs, Case{Kind: "maps", Seed: Mix(seed, 298), Count: 6, Sub: -1})
 	return cs
 }
 
@@ -149,7 +151,7 @@ func (c15) Run(c Case, env *Env) Result {
 	lo, hi := subRange(c)
 	kinds := []mon.FaultKind{mon.FaultOnce, mon.FaultFrom, mon.FaultShortErr, mon.FaultShortNil, mon.FaultFullErrOnce, mon.FaultFullErrFrom}
 	for j := lo; j < hi; j++ {
-		if c.Kind != "big" && typeAvoided(env, "C15", e) && !env.Replay {
+		if c.Kind != "big" && c.Kind != "maps" && typeAvoided(env, "C15", e) && !env.Replay {
 			res.Skipped++
 			continue
 		}
@@ -159,7 +161,24 @@ func (c15) Run(c Case, env *Env) Result {
 		}
 		var val interface{}
 		var feats []string
-		if c.Kind == "big" {
+		if c.Kind == "maps" {
+			feats = []string{"map-shapes"}
+			mixed := map[interface{}]interface{}{int32(1): "a", "k": int32(2), true: nil, int64(1) << 40: []interface{}{nil}}
+			switch j % 6 {
+			case 0:
+				val = mixed
+			case 1:
+				val = []interface{}{mixed, "tail", nil}
+			case 2:
+				val = &zoo.MpIface{M: mixed}
+			case 3:
+				val = zoo.NamedMap{"a": 1, "b": 2}
+			case 4:
+				val = []interface{}{zoo.NamedMap{"a": 1}, zoo.NamedMap{"b": 2}, nil}
+			default:
+				val = &zoo.NamedMapHolder{M: zoo.NamedMap{"k": 5, "j": 6}, N: 1}
+			}
+		} else if c.Kind == "big" {
 			n := 70000 + 40000*j
 			feats = []string{"big-payload"}
 			switch j % 3 {
